@@ -207,6 +207,22 @@ def items():
         decision(*ctx, NodeKey::Stmt(*stmt)) is NotInRange ==> blocks_only(*stmt, r), //# C09.stmt_not_in_range
         stmt_sem(r) == stmt_sem(*stmt), //# C02.stmt_same
 """, edits=[]),
+        Fn("src/formatters/assignment.rs", "format_local_assignment_no_trivia", mode="stub", contract="ensures lasg_sem(r) == lasg_sem(*assignment),"),
+        Fn("src/formatters/assignment.rs", "format_assignment_no_trivia", mode="stub", contract="ensures asg_sem(r) == asg_sem(*assignment),"),
+        Fn("src/formatters/functions.rs", "format_function_call", mode="stub", contract="ensures call_id(r) == call_id(*function_call),"),
+        Fn("src/formatters/lua52.rs", "format_goto_no_trivia", mode="stub", attrs='#[cfg(feature = "lua52")]\n', contract="ensures goto_sem(r) == goto_sem(*goto),"),
+        Fn(STM, "format_stmt_no_trivia", contract="""
+    requires
+        decision(*ctx, NodeKey::Stmt(*stmt)) is Normal,   // callers (collapsed if-guards / function bodies) must only pass statements that are formatted normally
+        simple_stmt_kind(*stmt),
+    ensures stmt_sem(r) == stmt_sem(*stmt), //# C02.stmt_no_trivia_same
+"""),
+        Raw("""
+pub open spec fn simple_stmt_kind(s: Stmt) -> bool {
+    match s { Stmt::LocalAssignment(_) => true, Stmt::Assignment(_) => true, Stmt::FunctionCall(_) => true,
+              #[cfg(feature = "lua52")] Stmt::Goto(_) => true, _ => false }
+}
+""", module="formatters::stmt"),
         Fn(BLK, "format_last_stmt_block", mode="stub", contract="ensures last_blocks_only(*last_stmt, r), last_sem(r) == last_sem(*last_stmt),"),
         Fn(BLK, "format_last_stmt_no_trivia", mode="stub", contract="ensures last_sem(r) == last_sem(*last_stmt),"),
         Fn(BLK, "format_last_stmt", contract="""
@@ -303,6 +319,7 @@ LABELS = {
     "C08.stmt_skip": dict(props=["C08"], text="format_stmt returns an ignored statement unchanged"),
     "C09.stmt_not_in_range": dict(props=["C09"], text="format_stmt touches only nested blocks of an out-of-range statement"),
     "C02.stmt_same": dict(props=["C02"], text="format_stmt returns the same kind of statement with the same payload meaning (per-kind formatters assumed)"),
+    "C02.stmt_no_trivia_same": dict(props=["C02", "C07"], text="format_stmt_no_trivia: same statement; its assert!/unreachable! cannot fire when the caller passes a normally-formatted assignment / call / goto (callers are not under contract: the precondition is an assumption about them)"),
     "C08.last_stmt_skip": dict(props=["C08"], text="format_last_stmt returns an ignored return/break unchanged"),
     "C09.last_stmt_not_in_range": dict(props=["C09"], text="format_last_stmt touches only nested blocks of an out-of-range last statement"),
     "C02.last_stmt_same": dict(props=["C02"], text="format_last_stmt keeps the last statement's meaning"),
